@@ -100,6 +100,22 @@ class SimpleValue(_base.BaseValue):
       self.instance_type_parameters[name] = param
     return param
 
+  def rebind_instance_type_parameter(self, node: "cfg.CFGNode", name: str):
+    """Rebind the current values of a type parameter at the given node.
+
+    A binding that is merged into a type parameter at a later node hides the
+    parameter's earlier bindings. Call this before merging into a container that
+    only grows (e.g. dict.update), so that what it already contains stays
+    visible.
+
+    Args:
+      node: The current CFG node.
+      name: The name of the type parameter.
+    """
+    param = self.get_instance_type_parameter(name, node)
+    if param.bindings:
+      param.PasteVariable(param.AssignToNewVariable(node), node)
+
   def merge_instance_type_parameter(
       self, node: "cfg.CFGNode|None", name: str, value: "cfg.Variable"
   ) -> None:
